@@ -175,6 +175,7 @@ def _classify(r, status, out):
     """the case that was in progress when the job died"""
     d = r.detail
     if 'VERDICT' in d: r.status = 'verdict'
+    elif 'CASE-TIME-LIMIT' in d: r.status = 'timeout'
     elif 'CRASH' in d: r.status = 'crash'
     elif status == 'timeout': r.status = 'timeout'
     elif 'AddressSanitizer' in out or 'runtime error:' in out or status in ('exit55', 'exit56'): r.status = 'asan'
@@ -208,7 +209,7 @@ def run_batch(vx, cases, np, timeout=120, env_extra=None):
     return done
 
 
-def run_cases(vx, cases, batch=200, timeout=None, jobs=None, env_extra=None, confirm=True, progress=None):
+def run_cases(vx, cases, batch=200, timeout=None, jobs=None, env_extra=None, confirm=True, progress=None, confirm_timeout=None):
     """Run all cases (mixed np allowed) in parallel batches.  Returns results in input order.
     A non-ok case is re-run alone (with 10x the time limit when it timed out) before it is believed."""
     groups = {}
@@ -234,7 +235,7 @@ def run_cases(vx, cases, batch=200, timeout=None, jobs=None, env_extra=None, con
     if confirm:
         for i, r in enumerate(results):
             if r is not None and r.status != 'ok':
-                to = 600 if r.status == 'timeout' else 120
+                to = confirm_timeout or (600 if r.status == 'timeout' else 120)
                 r2 = run_batch(vx, [cases[i]], cases[i].np, timeout=to, env_extra=env_extra)[0]
                 if r2.status == r.status: r.confirmed = True
                 elif r2.status == 'ok':
